@@ -58,3 +58,10 @@ Example C02_nonvacuous :
       [Life (LPermDeleted c 281470698652161)]; []; [ChanDataOut c 16384 [9]%N];
       [Life (LChanDeleted c p 16384); Life (LAllocDeleted c 1)]; [] ].
 Proof. vm_compute. reflexivity. Qed.
+
+(* ---------- history level ---------- *)
+From Turn Require Import Common RelayCheck RelayProps RelayTrace.
+(* the predicate evaluated on the implementation's observed traces (chk_C02_gate) holds on every trace of the model *)
+Theorem C02_predicate_holds_on_every_model_trace : forall cfg ep h, chk_C02_gate (model_case cfg ep h) = true.
+Proof. exact chk_C02_gate_model. Qed.
+Print Assumptions C02_predicate_holds_on_every_model_trace.
